@@ -213,7 +213,7 @@ def build(tier):
         obs.append(vf.Ob("equal_range_%d" % n, "C14", complete=False, bound=b, panic_prop="C17", what="do_ranges_equal_range: true only if every value of the oracle is covered"))
         obs.append(vf.Ob("equal_range_complete_%d" % n, "C14", complete=False, bound=b + "; oracle of at most %d values" % n, panic_prop="C17", what="do_ranges_equal_range: true whenever every value of the oracle is covered"))
     src = src.replace("@COLL@", coll)
-    u = vf.KaniUnit("c14_ranges", {"src/lib.rs": src}, obs, deps={"itertools": "0.13"}, timeout_s=900 if tier == "quick" else 3000, jobs=6, auto_files=[RF])
+    u = vf.KaniUnit("c14_ranges", {"src/lib.rs": src}, obs, deps={"itertools": "0.13"}, timeout_s=1800 if tier == "quick" else 3600, jobs=6, auto_files=[RF])
     u.fragments = [vf.frag_record(fr[k]) for k in fr]
     u.rewrites = [{"rule": "R0", "before": "whole impl<T> Range<T>, MyMath impls", "after": "verbatim", "times": 5}]
     u.assumptions = ["Handler/ErrorEmitted/CompileError::Internal/Span are message carriers",
